@@ -83,6 +83,41 @@ def ahb_s_sigs(b):
 SIGS = {"axl": (axl_m_sigs, axl_s_sigs), "wb": (wb_m_sigs, wb_s_sigs), "axi": (axi_m_sigs, axi_s_sigs),
         "ahb": (ahb_m_sigs, ahb_s_sigs)}
 
+# master-driven signals a bridge leaves at their reset value; compared (against the model's constant 0) where the
+# bridge is the master of the bus, so that a change that starts driving them is seen
+OUT_EXTRA = {"axl": (("awprot", "arprot"), lambda b: [b.aw.prot, b.ar.prot]),
+             "wb": (("cti", "bte"), lambda b: [b.cti, b.bte])}
+
+
+def field_widths(kind, dw, aw, idw=1, adr=None, lenw=8, sizew=3):
+    """Declared width of every signal of a bus of `kind`, from the parameters the harness passed to the interface
+    constructor (never from len(signal): a mis-sized signal must not hide itself)."""
+    nb = dw // 8
+    if kind == "axl":
+        return dict(awvalid=1, awaddr=aw, wvalid=1, wdata=dw, wstrb=nb, bready=1, arvalid=1, araddr=aw, rready=1,
+                    awready=1, wready=1, bvalid=1, bresp=2, arready=1, rvalid=1, rresp=2, rdata=dw, awprot=3, arprot=3)
+    if kind == "wb":
+        return dict(cyc=1, stb=1, we=1, adr=adr, sel=nb, datw=dw, cti=3, bte=2, ack=1, datr=dw, err=1)
+    if kind == "axi":
+        return dict(awvalid=1, awaddr=aw, awburst=2, awlen=lenw, awsize=sizew, awid=idw, wvalid=1, wdata=dw, wstrb=nb,
+                    wlast=1, bready=1, arvalid=1, araddr=aw, arburst=2, arlen=lenw, arsize=sizew, arid=idw, rready=1,
+                    awready=1, wready=1, bvalid=1, bresp=2, bid=idw, arready=1, rvalid=1, rresp=2, rdata=dw, rid=idw,
+                    rlast=1)
+    if kind == "ahb":
+        return dict(haddr=aw, hsize=3, htrans=2, hwdata=dw, hwrite=1, hsel=1, hrdata=dw, hreadyout=1, hresp=1)
+    raise KeyError(kind)
+
+
+class StepTimeout(Exception):
+    pass
+
+
+def _alarm(signum, frame):
+    raise StepTimeout("the netlist did not settle within the per-step time limit (combinational oscillation?)")
+
+
+STEP_LIMIT_S = 120
+
 
 def init_byte(a):
     """Initial content of every memory partner and reference memory."""
@@ -94,13 +129,16 @@ class PortInst:
     with `m_ports`/`s_ports` = (in_names, in_sigs, out_names, out_sigs)."""
 
     def __init__(self, name, module, lean_open, m_kind, m_bus, s_kind=None, s_bus=None, dom=None, env=None,
-                 monitor=None, s_ports=None, m_ports=None, clocks=("sys",)):
+                 monitor=None, s_ports=None, m_ports=None, clocks=("sys",), m_par=None, s_par=None):
+        """`m_par` / `s_par`: keyword arguments of `field_widths` for the two buses (or {"widths": {field: w}} for
+        custom port groups): the widths the harness asked for."""
         self.name = name
         self.module = module
         self.lean_open = lean_open
         self.netlist = Netlist(module, clocks=clocks)
         in_names, in_sigs, out_names, out_sigs = [], [], [], []
-        for side, kind, bus, ports in (("m", m_kind, m_bus, m_ports), ("s", s_kind, s_bus, s_ports)):
+        declared = {}
+        for side, kind, bus, ports, par in (("m", m_kind, m_bus, m_ports, m_par), ("s", s_kind, s_bus, s_ports, s_par)):
             if ports is not None:
                 inn, ins, outn, outs = ports
             elif kind is None:
@@ -108,7 +146,18 @@ class PortInst:
             else:
                 mf, sf = FIELDS[kind]
                 ms, ss = SIGS[kind][0](bus), SIGS[kind][1](bus)
-                inn, ins, outn, outs = (mf, ms, sf, ss) if side == "m" else (sf, ss, mf, ms)
+                if side == "m":
+                    inn, ins, outn, outs = mf, ms, sf, ss
+                else:
+                    inn, ins, outn, outs = sf, ss, mf, ms
+                    if kind in OUT_EXTRA:
+                        outn = tuple(outn) + OUT_EXTRA[kind][0]
+                        outs = list(outs) + OUT_EXTRA[kind][1](bus)
+            if par is not None:
+                fw = par["widths"] if "widths" in par else field_widths(kind, **par)
+                for f in list(inn) + list(outn):
+                    if f in fw:
+                        declared[side + "." + f] = fw[f]
             in_names += [side + "." + f for f in inn]
             in_sigs += list(ins)
             out_names += [side + "." + f for f in outn]
@@ -122,7 +171,12 @@ class PortInst:
             side, f = n.split(".", 1)
             q = QUAL.get(f)
             self.qual.append(self.out_idx[side + "." + q] if q and (side + "." + q) in self.out_idx else None)
-        self.widths = [len(s) for s in in_sigs]
+        # the signals of the interfaces must have the widths the harness asked for
+        for n, sig in list(zip(in_names, in_sigs)) + list(zip(out_names, out_sigs)):
+            if n in declared and len(sig) != declared[n]:
+                raise AssertionError("%s: signal %s is %d bits wide, %d were requested" % (name, n, len(sig), declared[n]))
+        self.declared = declared
+        self.widths = [declared.get(n, len(sg)) for n, sg in zip(in_names, in_sigs)]
         dom = dom or {}
         doms = []
         for n, w in zip(in_names, self.widths):
@@ -155,10 +209,29 @@ class PortInst:
         """Outputs (dict) the real netlist shows when the inputs named in `partial` are applied (others 0).
         Registers are untouched."""
         n = self.netlist
+        self._arm()
         for k, s in enumerate(self.inputs):
             n.set(s, partial.get(self.in_names[k], 0))
         n.settle()
+        self._disarm_timer()
         return {nm: n.getu(s) for nm, s in zip(self.out_names, self.outputs)}
+
+    @staticmethod
+    def _arm():
+        import signal
+        try:
+            signal.signal(signal.SIGALRM, _alarm)
+            signal.setitimer(signal.ITIMER_REAL, STEP_LIMIT_S)
+        except ValueError:      # not in the main thread
+            pass
+
+    @staticmethod
+    def _disarm_timer():
+        import signal
+        try:
+            signal.setitimer(signal.ITIMER_REAL, 0)
+        except ValueError:
+            pass
 
     def letter_of(self, d):
         return tuple(d.get(nm, 0) for nm in self.in_names)
@@ -175,6 +248,7 @@ class PortInst:
         return self.env.gen(self, rng, t)
 
     def nontrivial(self, letter, outs):
+        self._disarm_timer()            # called by the engines right after the clock edge
         d = self.sig_dict(letter, outs)
         for side in ("m", "s"):
             for v, r in (("awvalid", "awready"), ("wvalid", "wready"), ("bvalid", "bready"), ("arvalid", "arready"),
@@ -195,6 +269,7 @@ class PortInst:
     # explore.impl_step hooks: the observed outputs of each cycle are kept for the environment automata
     def apply(self, letter):
         n = self.netlist
+        self._arm()                     # covers this settle and the tick of the previous step's tail
         for k, s in enumerate(self.inputs):
             n.set(s, letter[k])
         n.settle()
@@ -203,6 +278,7 @@ class PortInst:
         n = self.netlist
         outs = [n.getu(s) for s in self.outputs]
         self.last_seen = dict(zip(self.out_names, outs))
+        self._arm()                     # re-armed for the clock edge explore.impl_step performs next
         return outs
 
 
@@ -291,8 +367,8 @@ class AxlMaster:
     and W ("any", "aw_first", "w_first", "same")."""
 
     def __init__(self, abits, nb, addrs=None, p_wr=0.3, p_rd=0.3, p_bready=0.6, p_rready=0.6, max_out=1,
-                 order="any", max_delay=3, strbs=None, align=True):
-        self.abits, self.nb = abits, nb
+                 order="any", max_delay=3, strbs=None, align=True, p_pool=0.9):
+        self.abits, self.nb, self.p_pool = abits, nb, p_pool
         self.addrs, self.strbs = addrs, strbs
         self.p_wr, self.p_rd, self.p_bready, self.p_rready = p_wr, p_rd, p_bready, p_rready
         self.max_out, self.order, self.max_delay, self.align = max_out, order, max_delay, align
@@ -303,7 +379,7 @@ class AxlMaster:
     def _addr(self, rng):
         if self.addrs is None:
             self.addrs = addr_pool(rng, self.abits, self.nb)
-        a = rng.choice(self.addrs) if rng.random() < 0.9 else rng.getrandbits(self.abits)
+        a = rng.choice(self.addrs) if rng.random() < self.p_pool else rng.getrandbits(self.abits)
         if self.align:
             a &= ~(self.nb - 1)
         else:
@@ -1066,7 +1142,7 @@ class BridgeMonitor:
     master request is pending before a hang is reported (None = off)."""
 
     def __init__(self, inst, m_kind, s_kind, m_nb, s_nb, m_amap, s_amap, errs=True, hang=400, check_data=True,
-                 b_order=False):
+                 b_order=False, fair=False):
         self.inst = inst
         self.m_kind, self.s_kind = m_kind, s_kind
         mk = {"axl": lambda nb, amap: AxlMemOracle(nb, amap, check_data=check_data),
@@ -1083,6 +1159,8 @@ class BridgeMonitor:
         self.err_acc = {"w": False, "r": False}
         self.b_order = b_order          # a write response stands for completed slave-side writes (1:1 bridges)
         self.s_wr_done = 0
+        self.fair = fair                # read/write alternation (bridges that serve both directions with one engine)
+        self.over = {"r-waits": 0, "w-waits": 0}
         self.hang = hang
         self.idle = {}
         self.t = 0
@@ -1134,10 +1212,22 @@ class BridgeMonitor:
         pm, ps = (self.prev or (None, None))
         self.prev = (m, s)
         self.t += 1
-        # ---- environment guards: master requests held, partner responses held and memory-behaved
+        # ---- environment guard 1: the master keeps its requests
         g = self._stab(self.m_kind, pm, m, True)
         if g:
             return self._disarm("master: " + g)
+        # ---- property: what the bridge drives is stable (judged before the partner guards: a bridge that changes
+        #      a request under way must not be mistaken for a misbehaving partner)
+        msg = self._stab(self.m_kind, pm, m, False)
+        if msg:
+            return "master side: " + msg
+        if s is not None:
+            msg = self._stab(self.s_kind, ps, s, True)
+            if msg:
+                return "slave side: " + msg
+            if self.s_kind == "wb" and s["cyc"] and s["stb"] and (s.get("cti", 0) or s.get("bte", 0)):
+                return "slave side: Wishbone cti/bte = %d/%d on a classic cycle" % (s.get("cti", 0), s.get("bte", 0))
+        # ---- environment guard 2: partner responses held and memory-behaved
         if s is not None and self.s_kind in ("axl", "axi"):
             g = self._stab(self.s_kind, ps, s, False)
             if g:
@@ -1152,14 +1242,6 @@ class BridgeMonitor:
                     self.err_acc[ev[0]] = True
                 if ev[0] == "w":
                     self.s_wr_done += 1
-        # ---- property: what the bridge drives is stable
-        msg = self._stab(self.m_kind, pm, m, False)
-        if msg:
-            return "master side: " + msg
-        if s is not None:
-            msg = self._stab(self.s_kind, ps, s, True)
-            if msg:
-                return "slave side: " + msg
         # ---- property: flat byte memory, one response per request
         n_before = len(self.m_or.events)
         msg = self.m_or.observe(m)
@@ -1178,6 +1260,22 @@ class BridgeMonitor:
                 self.s_wr_done = max(0, self.s_wr_done - need)
         if msg:
             return "master side: " + msg
+        # ---- read/write alternation (bridges with one shared engine): while a request of one direction waits,
+        #      at most two transactions of the other direction complete (one under way + one that won arbitration)
+        if self.fair and self.m_kind in ("axl", "axi"):
+            new_ev = self.m_or.events[n_before:]
+            ar_wait = bool(m["arvalid"] and not m["arready"])
+            w_there = bool(m["wvalid"]) or bool(getattr(self.m_or, "w", None)) or self.m_kind == "axi"
+            aw_wait = bool(m["awvalid"] and not m["awready"] and w_there)
+            nw = sum(1 for ev in new_ev if ev[0] == "w")
+            nr = sum(1 for ev in new_ev if ev[0] == "r") if self.m_kind == "axl" else \
+                (1 if (m["rvalid"] and m["rready"] and m["rlast"]) else 0)
+            self.over["r-waits"] = self.over["r-waits"] + nw if ar_wait else 0
+            self.over["w-waits"] = self.over["w-waits"] + nr if aw_wait else 0
+            if self.over["r-waits"] > 2:
+                return "master side: %d writes completed while a read address was waiting (starvation)" % self.over["r-waits"]
+            if self.over["w-waits"] > 2:
+                return "master side: %d reads completed while a write was waiting (starvation)" % self.over["w-waits"]
         # ---- progress (per direction: the read and write paths of a bridge may be independent)
         if self.hang:
             def hs(chs):
